@@ -48,6 +48,8 @@ _COMMON_TRUST = ["modelled, not verified: yaml.v3, text/template, dominikbraun/g
 PROPS = {
     "C08": dict(
         src="Properties/C08.v", target="Properties/C08.vo",
+        # statements about the tree as it is: the "flag is repaired" premises discharged against Extracted.Facts
+        more_src=["Properties/C08Current.v"],
         support=["Merge/Model.vo", "Merge/Spec.vo"], run_targets=["Run/MergeCases.vo"],
         drivers=[dict(name="merge", extra="mode=c08", n_quick=240, n_thorough=3000, shard=30,
                       results={"R_read": "agree", "R_merge": "agree", "R_wf": "agree",
@@ -68,6 +70,8 @@ PROPS = {
     ),
     "C09": dict(
         src="Properties/C09.v", target="Properties/C09.vo",
+        # statements about the tree as it is: the "flag is repaired" premises discharged against Extracted.Facts
+        more_src=["Properties/C09Current.v"],
         support=["Merge/Model.vo", "Merge/Spec.vo"], run_targets=["Run/MergeCases.vo"],
         drivers=[dict(name="merge", extra="mode=c09", n_quick=80, n_thorough=1000, shard=10,
                       results={"R_read": "agree", "R_merge": "agree", "R_wf": "agree", "R_c09_det": "mon", "R_c09_stable": "mon"})],
